@@ -62,6 +62,9 @@ def build(spec: Dict[str, Any]):
         exec(f"def meth({', '.join(parts)}):\n    {body}\n", ns)
         fn = validator.validate(ns['meth']) if validator else ns['meth']
         reg.add(fn, 'meth', context=ctx_name)
+        if ctx_name and m.get('twice'):
+            # the same function exposed a second time WITHOUT a context designation: there 'ctx' is an ordinary required parameter
+            reg.add(fn, 'meth_plain')
     d = pjrpc.server.Dispatcher()
     d.add_methods(reg)
     _CACHE[key] = (d, reg)
@@ -92,6 +95,9 @@ def variants(params: List[Dict[str, Any]]) -> Iterator[Dict[str, Any]]:
             cand = ps[:pos] + [{'name': 'ctx', 'kind': 'PK', 'ctx': True}] + ps[pos:]
             if hm.valid_order([{**p, 'default': {'value': 0}} if 'default' in p else p for p in cand]):
                 yield {'params': cand, 'flavour': 'func', 'excluded': excluded, 'view_ctx': False}
+                if not excluded:
+                    yield {'params': cand, 'flavour': 'func', 'excluded': excluded, 'view_ctx': False, 'twice': 'ctx-first'}
+                    yield {'params': cand, 'flavour': 'func', 'excluded': excluded, 'view_ctx': False, 'twice': 'plain-first'}
         n_before_ko = len([p for p in ps if p['kind'] == 'PK'])
         yield {'params': ps[:n_before_ko] + [{'name': 'ctx', 'kind': 'KO', 'ctx': True}] + ps[n_before_ko:], 'flavour': 'func', 'excluded': excluded, 'view_ctx': False}
         yield {'params': ps, 'flavour': 'view', 'excluded': excluded, 'view_ctx': True}
@@ -118,7 +124,7 @@ class C17(Check):
         "cases: (a) enumerated: every signature of <= 2 (quick) / <= 3 (thorough) parameters over positional-or-keyword / keyword-only x with / "
         "without defaults, x context parameter designations (none, by name at each positional position, keyword-only, view constructor) x "
         "exclusion predicate on/off (an extra defaulted 'dep_' parameter, excluded in the extractor and in the validator) x function / view "
-        "method; (b) Hypothesis: signatures of up to 4 parameters with annotations. For each: the OpenAPI request schema and the OpenRPC params "
+        "method, x the same function registered a second time without context designation (probed in both orders); (b) Hypothesis: signatures of up to 4 parameters with annotations. For each: the OpenAPI request schema and the OpenRPC params "
         "list are generated with PydanticSchemaExtractor, and ALL params objects over subsets of (documented names + one undocumented name + "
         "the context name + the excluded name) are dispatched. Oracle: documented names == the signature's client parameters, documented "
         "required == those without default, context / excluded names in neither document, both documents agree; a params object whose keys "
@@ -132,7 +138,7 @@ class C17(Check):
         "view methods do not name a parameter after the view's context",
     ]
     trusted_base = ['python call binding (parameter lists are read off the generated signature spec)']
-    required_classes = ['flavour/func', 'flavour/view', 'ctx/name', 'ctx/view', 'excluded/yes', 'kind/KO', 'has-default', 'n=0']
+    required_classes = ['flavour/func', 'flavour/view', 'ctx/name', 'ctx/view', 'excluded/yes', 'kind/KO', 'has-default', 'n=0', 'registered-twice']
 
     def _enum(self, maxn: int, shard: int = 0, nshards: int = 1):
         k = 0
@@ -185,17 +191,35 @@ class C17(Check):
         m = spec['method']
         params = m['params']
         d, reg = build(spec)
+        exposures = ['meth']
+        if m.get('twice') and any(p.get('ctx') for p in params):
+            exposures = ['meth', 'meth_plain'] if m['twice'] == 'ctx-first' else ['meth_plain', 'meth']
+        out: Optional[Outcome] = None
+        for exposed in exposures:
+            o = self._judge_exposure(spec, d, reg, exposed)
+            if out is None:
+                out = o
+            else:
+                out = Outcome(out.discs + o.discs, out.nontrivial or o.nontrivial, sorted(set(out.classes + o.classes + ['registered-twice'])), out.evaluations + o.evaluations)
+        return out
+
+    def _judge_exposure(self, spec: Any, d: Any, reg: Any, exposed: str) -> Outcome:
+        m = spec['method']
+        params = m['params']
+        plain = exposed == 'meth_plain'
+        if plain:   # no context designation: every parameter (incl. the one called ctx) is a client parameter
+            params = [{k: v for k, v in p.items() if k != 'ctx'} for p in params]
         client_params = [p for p in params if not p.get('ctx') and not p.get('excluded')]
         want_names = [p['name'] for p in client_params]
         want_required = [p['name'] for p in client_params if 'default' not in p]
         sig = ', '.join(p['name'] + ('=..' if 'default' in p else '') + ('[ctx]' if p.get('ctx') else '') + ('[excl]' if p.get('excluded') else '') + ('/KO' if p['kind'] == 'KO' else '') for p in params)
-        where = f"def meth({sig}) flavour={m['flavour']} view_ctx={m['view_ctx']}"
+        where = f"def meth({sig}) exposed as {exposed!r} (registered twice: {m.get('twice')}) flavour={m['flavour']} view_ctx={m['view_ctx']}"
         discs: List[Disc] = []
         extractor = PydanticSchemaExtractor(exclude_param=exclude_pred) if m['excluded'] else PydanticSchemaExtractor()
         documented: Dict[str, Tuple[List[str], List[str]]] = {}
         try:
             oa = openapi.OpenAPI(info=openapi.Info(title='t', version='1'), schema_extractor=extractor).schema(path='/api', methods_map={'': reg.values()})
-            item = oa['paths']['/api#meth']['post']
+            item = oa['paths'][f'/api#{exposed}']['post']
             req = find_ref(oa, item['requestBody']['content']['application/json']['schema'])
             ps = find_ref(oa, req['properties']['params'])
             documented['openapi'] = (list(ps.get('properties', {})), list(ps.get('required', [])))
@@ -203,7 +227,7 @@ class C17(Check):
             discs.append(Disc(f"C17/openapi/generation-failed/{type(e).__name__}", f"{e!r} | {where}"))
         try:
             orp = openrpc.OpenRPC(info=openrpc.Info(title='t', version='1'), schema_extractor=extractor).schema(path='/api', methods_map={'': reg.values()})
-            meth = next(x for x in orp['methods'] if x['name'] == 'meth')
+            meth = next(x for x in orp['methods'] if x['name'] == exposed)
             documented['openrpc'] = ([p['name'] for p in meth['params']], [p['name'] for p in meth['params'] if p.get('required')])
         except Exception as e:
             discs.append(Disc(f"C17/openrpc/generation-failed/{type(e).__name__}", f"{e!r} | {where}"))
@@ -219,12 +243,12 @@ class C17(Check):
 
         # dispatch all params objects over subsets of (documented names + undocumented + ctx + excluded)
         pub_names, pub_required = documented.get('openapi') or documented.get('openrpc') or (want_names, want_required)
-        pool = list(dict.fromkeys(list(pub_names) + want_names + ['zz'] + [p['name'] for p in params if p.get('ctx') or p.get('excluded')]))
+        pool = list(dict.fromkeys(list(pub_names) + want_names + ['zz'] + [p['name'] for p in m['params'] if p.get('ctx') or p.get('excluded')]))
         n_eval = 0
         for r in range(len(pool) + 1):
             for subset in itertools.combinations(pool, r):
                 n_eval += 1
-                text = json.dumps({'jsonrpc': '2.0', 'id': 1, 'method': 'meth', 'params': {k: 1 for k in subset}})
+                text = json.dumps({'jsonrpc': '2.0', 'id': 1, 'method': exposed, 'params': {k: 1 for k in subset}})
                 resp = json.loads(d.dispatch(text, object())[0])
                 refused = resp.get('error', {}).get('code') == -32602
                 conforms = set(pub_required) <= set(subset) <= set(pub_names)
